@@ -82,6 +82,9 @@ class Adapter:
         self.requests = 0
         self.media_seen: dict[str, int] = {}
         self.current_is_first = False
+        self.after_refresh = False          # only corrupt the first new segment of a representation after a refresh
+        self.all_manifest_fetches = 0
+        self.since_refresh: set[str] = set()
 
     def default_duration(self, url: str) -> int:
         """trex default_sample_duration of the stored file the URL names (own walker)"""
@@ -125,6 +128,9 @@ class Adapter:
         is_init = '/init.' in path
         is_media = not is_manifest and not is_init and not path.startswith('/patch') and (
             path.startswith('/dash/') or path.startswith('/mps/'))
+        if is_manifest:
+            self.all_manifest_fetches += 1
+            self.since_refresh = set()
         if f in MANIFEST_FAULTS:
             if not is_manifest:
                 return
@@ -159,6 +165,11 @@ class Adapter:
             rep_key = m_.group(1) if m_ else path
             self.media_seen[rep_key] = self.media_seen.get(rep_key, 0) + 1
             self.current_is_first = self.media_seen[rep_key] == 1
+            first_since_refresh = rep_key not in self.since_refresh
+            self.since_refresh.add(rep_key)
+            if self.after_refresh and not (self.all_manifest_fetches >= 2 and first_since_refresh
+                                           and not self.current_is_first):
+                return
         if f in SEGMENT_FAULTS and is_media:
             if resp.status_code != 200:
                 return
@@ -217,6 +228,21 @@ class Adapter:
             if f not in ('http-404', 'content-type'):
                 resp._body = bytes(m)
             self.applied = {'fault': f, 'url': url, 'what': what, 'first_of_representation': self.current_is_first}
+
+
+def first_suffix(applied: dict, fault: str) -> str:
+    """The recorded finding is narrow: in the very first segment the validator checks of a
+    Representation it has no expectation for the quantity the URL does NOT carry -- the decode time
+    of a $Number$ URL, the sequence number of a $Time$ URL.  A wrong tfdt behind a $Time$ URL or a
+    wrong mfhd behind a $Number$ URL is checkable from the URL alone and gets no suffix."""
+    if not applied.get('first_of_representation'):
+        return ''
+    by_time = '/time/' in applied.get('url', '')
+    if fault.startswith('tfdt') and by_time:
+        return ''
+    if fault.startswith('mfhd') and not by_time:
+        return ''
+    return '-first-validated-segment-of-representation'
 
 
 def corrupt_manifest(body: bytes, fault: str):
@@ -304,7 +330,7 @@ class Session:
     def __init__(self, env, res: ShardResult) -> None:
         self.env, self.res = env, res
 
-    def run(self, case: dict, fault: str | None, pick: int = 0):
+    def run(self, case: dict, fault: str | None, pick: int = 0, after_refresh: bool = False):
         """-> dict(outcome, errors[], applied, iterations, manifest_text)"""
         from dashlive.mpeg.dash.validator import DashValidator, ValidatorOptions
         from dashlive.utils.date_time import RelaxedDateTime
@@ -317,6 +343,7 @@ class Session:
         adapter = Adapter(env)
         adapter.fault = fault
         adapter.pick = pick
+        adapter.after_refresh = after_refresh
         log = logging.getLogger('dlv.c18')
         log.setLevel(logging.CRITICAL)
         opts = ValidatorOptions(duration=case.get('duration', 8), encrypted='drm' in case['params'],
@@ -472,11 +499,17 @@ def run_shard(ctx: ShardCtx) -> ShardResult:
         sess = Session(env, res)
         rng = ctx.rng
         n = ctx.scale(10**6, 10**7)
+        replayed = ctx.replay.get('replay') if ctx.replay else None
+        if replayed:
+            n = 1
         for i in range(n):
             case = gen_case(ctx)
             corrupted = i % 2 == 1
             fault = None
-            if corrupted:
+            if replayed:
+                case, fault = replayed['case'], replayed.get('fault')
+                corrupted = fault is not None
+            elif corrupted:
                 pool = list(SEGMENT_FAULTS) + list(INIT_FAULTS)
                 if case['mode'] == 'live':
                     pool += MANIFEST_FAULTS
@@ -488,9 +521,26 @@ def run_shard(ctx: ShardCtx) -> ShardResult:
                 if case['params'].get('timeline') != '1' or case['mode'] == 'odvod':
                     pool = [f for f in pool if not f.startswith('timeline-')]
                 fault = rng.choice(pool)
-            out, dv = sess.run(case, fault, pick=rng.randrange(0, 4) if fault in SEGMENT_FAULTS else 0)
+            after_refresh = False
+            pick = rng.randrange(0, 4)
+            if replayed:
+                after_refresh, pick = bool(replayed.get('after_refresh')), int(replayed.get('pick', 0))
+            elif fault in ('tfdt-plus', 'tfdt-minus', 'mfhd-plus') and case['mode'] == 'live' and rng.random() < 0.5:
+                # a longer session with a short window: the fault goes into the first new segment of a
+                # representation after a manifest refresh (continuity across refreshes)
+                after_refresh = True
+                case['params']['depth'] = '20'
+                case['params'].setdefault('mup', '4')
+                case['duration'] = rng.choice([24, 40])
+            if after_refresh or fault not in SEGMENT_FAULTS:
+                pick = 0
+            out, dv = sess.run(case, fault, pick=pick, after_refresh=after_refresh)
+            if after_refresh:
+                res.count('faults.after_refresh_sessions')
+                if out.get('applied'):
+                    res.count('faults.after_refresh_applied')
             res.evaluations += 1
-            rp = {'case': case, 'fault': fault}
+            rp = {'case': case, 'fault': fault, 'after_refresh': after_refresh, 'pick': pick}
             sig = (f'{case["manifest"]}|{case["mode"]}|{"tl" if case["params"].get("timeline") == "1" else "num"}|'
                    f'{"drm" if "drm" in case["params"] else "clear"}|{"patch" if "patch" in case["params"] else ""}')
             if out['outcome'] == 'watchdog':
@@ -532,7 +582,7 @@ def run_shard(ctx: ShardCtx) -> ShardResult:
             res.bucket('fault', fault)
             res.keys.add(f'corrupt|{sig}|{fault}')
             if not errors:
-                first = '-first-validated-segment-of-representation' if applied.get('first_of_representation') else ''
+                first = first_suffix(applied, fault)
                 res.violation(f'corruption-not-flagged-{fault}{first}',
                               f'{case["manifest"]} {case["mode"]} {case["params"]}: {applied["what"]} in {applied["url"]} '
                               f'but the validator reported no error', rp)
@@ -553,7 +603,7 @@ def run_shard(ctx: ShardCtx) -> ShardResult:
                 if rng_lines is None:
                     located = True      # owner cannot be determined from the URL: do not judge the location
             if not located:
-                first = '-first-validated-segment-of-representation' if applied.get('first_of_representation') else ''
+                first = first_suffix(applied, fault)
                 res.violation(f'corruption-flagged-at-wrong-element-{fault}{first}',
                               f'{case["manifest"]} {case["mode"]}: {applied["what"]} in {applied["url"]}; errors: '
                               f'{[str(e)[:120] for e in errors[:3]]}', rp)
